@@ -481,6 +481,85 @@ fn hand(stream: &[u8], calls: &[(u8, u8)]) -> Vec<String> {
     out
 }
 
+/// A complete frame-like sequence that is NOT the canonical frame of any payload (C10: must be reported as exactly one
+/// decode error, never as a file). The monitor re-establishes both facts in TLA+ (J_C10.NearOk).
+fn near_frame(rng: &mut Rng) -> Vec<u8> {
+    fn nb(rng: &mut Rng) -> u8 {
+        loop {
+            let b = rng.byte();
+            if b != 0x1b && b != 0 {
+                return b;
+            }
+        }
+    }
+    fn end(s: &mut Vec<u8>, pad: u8, good: bool) {
+        s.extend([0x1b, 0x1b, 0x1b, 0x1b, 0x1a, pad]);
+        let mut c = crc16(s);
+        if !good {
+            c ^= 0x0100;
+        }
+        s.extend(c.to_le_bytes());
+    }
+    let mut s = START.to_vec();
+    match rng.below(7) {
+        0 => {
+            // pad count 4: four zero bytes, aligned, matching checksum - the protocol allows 0..=3 only
+            for _ in 0..4 * rng.below(3) {
+                s.push(nb(rng));
+            }
+            s.extend([0, 0, 0, 0]);
+            end(&mut s, 4, true);
+        }
+        1 => {
+            // pad count announced, but the data does not end in that many zeros
+            for _ in 0..4 * (1 + rng.below(2)) {
+                s.push(nb(rng));
+            }
+            end(&mut s, 1 + rng.below(3) as u8, true);
+        }
+        2 => {
+            // length not a multiple of four
+            for _ in 0..1 + rng.below(7) {
+                s.push(nb(rng));
+            }
+            if s.len() % 4 == 0 {
+                s.push(nb(rng));
+            }
+            end(&mut s, 0, true);
+        }
+        3 => {
+            // canonical frame with one checksum bit flipped
+            let p: Vec<u8> = (0..rng.below(7)).map(|_| nb(rng)).collect();
+            s = frame(&p);
+            let l = s.len();
+            s[l - 1 - rng.below(2)] ^= 1 << rng.below(8);
+        }
+        4 => {
+            // invalid escape sequence
+            for _ in 0..4 * rng.below(2) {
+                s.push(nb(rng));
+            }
+            s.extend([0x1b, 0x1b, 0x1b, 0x1b, 2 + rng.below(0x18) as u8, nb(rng), nb(rng), nb(rng)]);
+        }
+        5 => {
+            // pad count 5..=255 with zeros and a matching checksum
+            for _ in 0..4 {
+                s.push(nb(rng));
+            }
+            s.extend([0, 0, 0, 0, 0, 0, 0, 0]);
+            end(&mut s, 5 + rng.below(251) as u8, true);
+        }
+        _ => {
+            // pad count larger than the whole data part
+            for _ in 0..4 * rng.below(1) {
+                s.push(nb(rng));
+            }
+            end(&mut s, 1 + rng.below(3) as u8, true);
+        }
+    }
+    s
+}
+
 pub fn cmd_c10(tier: &str, out: &str) {
     quiet_panics();
     let thorough = tier == "thorough";
@@ -520,13 +599,17 @@ pub fn cmd_c10(tier: &str, out: &str) {
             }
             noises.push(g);
         }
+        // near-frames after the noise: frame-like sequences that must be rejected with one error each
+        let nears: Vec<Vec<u8>> = (0..=k).map(|_| if case % 2 == 1 && rng.chance(1, 2) { near_frame(&mut rng) } else { vec![] }).collect();
         let mut stream: Vec<u8> = noises[0].clone();
+        stream.extend(&nears[0]);
         for i in 0..k {
             stream.extend(frame(&files[i]));
             stream.extend(&noises[i + 1]);
+            stream.extend(&nears[i + 1]);
         }
-        // expected number of results: noise reports + values + end; calls: that many plus 3 more
-        let nres = k + noises.iter().filter(|g| !g.is_empty()).count() + 3;
+        // expected number of results: noise reports + near-frame errors + values + end; calls: that many plus 3 more
+        let nres = k + noises.iter().filter(|g| !g.is_empty()).count() + nears.iter().filter(|g| !g.is_empty()).count() + 3;
         let calls: Vec<(u8, u8)> = (0..nres)
             .map(|_| (if case % 5 == 1 { 1 } else if case % 5 == 2 { rng.below(2) as u8 } else if case % 5 == 3 { rng.below(4) as u8 } else if case % 5 == 4 { 2 } else { 0 }, if case % 3 == 0 { (case / 3 % 3) as u8 } else { rng.below(3) as u8 }))
             .collect();
@@ -536,7 +619,7 @@ pub fn cmd_c10(tier: &str, out: &str) {
                 continue;
             }
             // buf: 0 default 8 KiB, 1 ArrayBuf<N> with N = smallest instantiated >= max file length, 2 Vec
-            let nfix = cap_at_least(maxlen);
+            let nfix = cap_at_least(maxlen.max(16));
             let res: Vec<String> = match catch_unwind(AssertUnwindSafe(|| run_e2e(&stream, src, buf, nfix, &calls))) {
                 Ok(v) => v,
                 Err(_) => vec!["[0,8]".to_string()],
@@ -545,9 +628,10 @@ pub fn cmd_c10(tier: &str, out: &str) {
             let key = format!("{:?}|{:?}|{}|{}", stream, calls, src, buf);
             ks.put(&key, || {
                 format!(
-                    "{{\"files\":{},\"noise\":{},\"stream\":{},\"src\":{},\"buf\":{},\"nfix\":{},\"calls\":{},\"res\":[{}],\"hand\":[{}]}}",
+                    "{{\"files\":{},\"noise\":{},\"near\":{},\"stream\":{},\"src\":{},\"buf\":{},\"nfix\":{},\"calls\":{},\"res\":[{}],\"hand\":[{}]}}",
                     jarr2(&files.iter().map(|f| f.iter().map(|b| *b as i64).collect()).collect::<Vec<Vec<i64>>>()),
                     jarr2(&noises.iter().map(|f| f.iter().map(|b| *b as i64).collect()).collect::<Vec<Vec<i64>>>()),
+                    jarr2(&nears.iter().map(|f| f.iter().map(|b| *b as i64).collect()).collect::<Vec<Vec<i64>>>()),
                     jarr(&stream),
                     src,
                     buf,
